@@ -807,6 +807,10 @@ op('logb', 'v', 'v', 'avel::logb({0})', lw(o_logb), F, ['C12', 'C16'], cmp='fp_n
 op('frac', 'v', 'v', 'avel::frac({0})', lw(o_frac), F, ['C12', 'C16'], cmp='fp_num', scalar='avel::frac({0})', rm='RNE')
 op('fmax', 'vv', 'v', 'avel::fmax({0}, {1})', lw(o_cfmax), F, ['C12', 'C16'], cmp='oneof_nan', scalar='avel::fmax({0}, {1})', rm='RNE')
 op('fmin', 'vv', 'v', 'avel::fmin({0}, {1})', lw(o_cfmin), F, ['C12', 'C16'], cmp='oneof_nan', scalar='avel::fmin({0}, {1})', rm='RNE')
+# ---- C19 (API parity only: no value oracle; these are compiled and link-checked for every width, see special.api_parity)
+op('fmod', 'vv', 'v', 'avel::fmod({0}, {1})', None, F, ['C19'])
+op('frem', 'vv', 'v', '{0} % {1}', None, F, ['C19'])
+op('frem_assign', 'vv', 'v', 'vf::rem_assign({0}, {1})', None, F, ['C19'])
 op('fdim', 'vv', 'v', 'avel::fdim({0}, {1})', lw(o_fdim), F, ['C12', 'C16'], cmp='fp_num', lane_pre=fdim_lane_pre, scalar='avel::fdim({0}, {1})', rm='RNE')
 
 # ---- C13
